@@ -402,6 +402,182 @@ AtStep(cs, ev, q, tol, sameState) ==
                    !.v = Judge(cs.v, checks, 1, n, IF cs.shifted THEN "g92xyz" ELSE "")]
 
 (***************************************************************************)
+(* Plugin layer: print lifecycle, script hook, region registry (API).      *)
+(* Every plugin-level event carries                                        *)
+(*   rl    : the implementation's region list after the step (projected)   *)
+(*   notes : the payloads of the change notifications sent during the step *)
+(***************************************************************************)
+SameRegion(x, y) ==
+    /\ x.t = y.t /\ x.id = y.id /\ x.a = y.a /\ x.b = y.b /\ x.c = y.c /\ x.d = y.d
+
+SameList(xs, ys) ==
+    /\ Len(xs) = Len(ys)
+    /\ \A i \in 1..Len(xs) : SameRegion(xs[i], ys[i])
+
+UniqueIds(rl) == \A i, j \in 1..Len(rl) : i # j => rl[i].id # rl[j].id
+
+\* notifications: every payload equals the list after the step; exactly one if the list changed
+NotesOK(notes, before, after) ==
+    /\ \A k \in 1..Len(notes) : SameList(notes[k], after)
+    /\ (~SameList(before, after)) => Len(notes) = 1
+
+\* the tracking state of a new print: nothing is known, nothing is owed
+ResetTracking(cs) ==
+    [cs EXCEPT !.ph = P0, !.gh = P0, !.en = TRUE, !.ep = FALSE, !.clean = TRUE,
+               !.posOK = TRUE, !.shifted = FALSE, !.sc03 = TRUE, !.scE = TRUE,
+               !.gr = 0, !.gk = "n", !.ga = 0, !.maxret = 0, !.g10p = "", !.led = <<>>]
+
+EndEvents == {"PrintDone", "PrintFailed", "PrintCancelling", "PrintCancelled", "Error"}
+
+(***************************************************************************)
+(* An OctoPrint event.  ev = [name, rl, notes]                             *)
+(***************************************************************************)
+PevStep(cs, ev) ==
+    LET n == cs.n + 1
+        nm == ev.name
+        clears == nm = "FileSelected" \/ (nm \in EndEvents /\ cs.cf.clearAfter)
+        regs1 == IF clears THEN <<>> ELSE cs.regs
+        c1 == IF nm = "FileSelected" THEN ResetTracking(cs)
+              ELSE IF nm = "SettingsUpdated" THEN [cs EXCEPT !.cf = cs.store]
+              ELSE IF nm = "PrintStarted" THEN [ResetTracking(cs) EXCEPT !.active = TRUE]
+              ELSE IF nm \in EndEvents
+                   THEN [(IF clears THEN ResetTracking(cs) ELSE cs) EXCEPT !.active = FALSE]
+              ELSE cs
+        checks == <<
+          <<"C11", "C11.regions_after_event", SameList(ev.rl, regs1)>>,
+          <<"C13", "C13.event_notification", NotesOK(ev.notes, cs.regs, regs1)>>,
+          <<"C13", "C13.unique_ids", UniqueIds(ev.rl)>> >>
+    IN  [c1 EXCEPT !.n = n, !.regs = regs1, !.v = Judge(cs.v, checks, 1, n, "")]
+
+\* a settings value was stored (takes effect with the next SettingsUpdated event)
+SetStep(cs, store) == [cs EXCEPT !.n = cs.n + 1, !.store = store]
+
+(***************************************************************************)
+(* The script hook.  ev = [stype, sname, res ("none" | "list"), out]       *)
+(***************************************************************************)
+HookStep(cs, ev, q, tol) ==
+    LET n == cs.n + 1
+        cf == cs.cf
+        isAfter == ev.stype = "gcode" /\ ev.sname = "afterPrintDone"
+        mon == cs.posOK /\ Homed(cs.gh)
+        closing == isAfter /\ cs.active /\ cs.ep
+        outs == IF ev.res = "list" THEN ev.out ELSE <<>>
+        nout == Len(outs)
+        phs == Run(cs.ph, outs, cf.g90e)
+        p1 == phs[Len(phs)]
+        g == cs.gh
+        tag == IF cs.shifted THEN "g92xyz" ELSE ""
+        checks == <<
+          <<"C09", "C09.noraise", ev.res # "exc">>,
+          <<"C15", "C15.nothing", (~closing /\ (mon \/ ~cs.active \/ ~isAfter)) => nout = 0>>,
+          <<"C11", "C11.idle_hook", (~cs.active) => nout = 0>>,
+          <<"C15", "C15.flush", (mon /\ closing) => FlushOK(cs.led, cf.exit, outs)>>,
+          <<"C06", "C06.flush", (mon /\ closing) => FlushOK(cs.led, cf.exit, outs)>>,
+          <<"C15", "C15.sync_xy", (mon /\ closing /\ cs.sc03) => SyncXY(p1, g, tol)>>,
+          <<"C15", "C15.sync_z", (mon /\ closing /\ cs.sc03) => SyncZ(p1, g, tol)>>,
+          <<"C15", "C15.mode", (mon /\ closing /\ cs.sc03) => SyncMode(p1, g)>>,
+          <<"C15", "C15.travel",
+             (mon /\ closing /\ cs.sc03) => TravelOK(phs, cs.ph.z, g.z, tol)>>,
+          <<"C15", "C15.e", (mon /\ closing /\ cs.scE) => Near(p1.e, g.e, tol)>>,
+          <<"C03", "C03.sync.xy", (mon /\ closing /\ cs.sc03) => SyncXY(p1, g, tol)>>,
+          <<"C03", "C03.sync.z", (mon /\ closing /\ cs.sc03) => SyncZ(p1, g, tol)>>,
+          <<"C04", "C04a.e_coordinate", (mon /\ closing /\ cs.scE) => Near(p1.e, g.e, tol)>>,
+          <<"C07", "C07.form",
+             \A k \in 1..nout :
+                (~TxtIn(outs[k].txt, cf.exit)
+                   /\ ~(\E j \in 1..Len(cs.led) : ~cs.led[j].m /\ cs.led[j].txt = outs[k].txt))
+                => outs[k].wf>>
+        >>
+    IN  [cs EXCEPT !.n = n, !.ph = p1,
+                   !.ep = IF closing THEN FALSE ELSE cs.ep,
+                   !.led = IF closing THEN <<>> ELSE cs.led,
+                   !.cnt = [cs.cnt EXCEPT !.closeHook = @ + (IF closing THEN 1 ELSE 0)],
+                   !.v = Judge(cs.v, checks, 1, n, tag)]
+
+(***************************************************************************)
+(* Region registry requests.                                               *)
+(* ev = [cmd ("add"|"update"|"delete"|"other"), anon, typ ("rect"|"circ"|  *)
+(*       "bad"), id, hasId, a, b, c, d (raw request numbers), status (0 =  *)
+(*       accepted), rl, notes]                                             *)
+(***************************************************************************)
+SamplePoints(r) ==
+    IF r.t = "rect" THEN
+        LET mx == (r.a + r.c) \div 2
+            my == (r.b + r.d) \div 2
+        IN  { <<r.a, r.b>>, <<r.c, r.b>>, <<r.c, r.d>>, <<r.a, r.d>>,
+              <<mx, r.b>>, <<mx, r.d>>, <<r.a, my>>, <<r.c, my>>, <<mx, my>> }
+    ELSE
+        LET k == r.c \div 5
+            axis == { <<r.a, r.b>>, <<r.a + r.c, r.b>>, <<r.a - r.c, r.b>>,
+                      <<r.a, r.b + r.c>>, <<r.a, r.b - r.c>> }
+            pyth == IF r.c = 5 * k
+                    THEN { <<r.a + sx * 3 * k, r.b + sy * 4 * k>> : sx \in {-1, 1}, sy \in {-1, 1} }
+                         \cup
+                         { <<r.a + sx * 4 * k, r.b + sy * 3 * k>> : sx \in {-1, 1}, sy \in {-1, 1} }
+                    ELSE {}
+        IN  axis \cup pyth
+
+\* every sampled point of the old region is a point of the new one
+Covers(new, old, q) == \A p \in SamplePoints(old) : InRegion(new, p[1], p[2], q)
+
+MkRegion(ev, id) ==
+    IF ev.typ = "rect" THEN MkRect(id, ev.a, ev.b, ev.c, ev.d) ELSE MkCirc(id, ev.a, ev.b, ev.c)
+
+IdxOf(regs, id) == {i \in 1..Len(regs) : regs[i].id = id}
+
+ApiStep(cs, ev, q) ==
+    LET n == cs.n + 1
+        before == cs.regs
+        locked == cs.active /\ ~cs.cf.mayShrink
+        accepted == ev.status = 0
+        idx == IdxOf(before, ev.id)
+        old == before[CHOOSE i \in idx : TRUE]
+        \* the region the request describes (for "add" without id the implementation chooses a
+        \* fresh id, which is read from the logged list)
+        newId == IF ev.hasId THEN ev.id
+                 ELSE IF Len(ev.rl) > 0 THEN ev.rl[Len(ev.rl)].id ELSE ""
+        new == MkRegion(ev, newId)
+        mustRefuse ==
+            \/ ev.anon
+            \/ (ev.cmd = "delete" /\ locked)
+            \/ (ev.cmd \in {"add", "update"} /\ ev.typ = "bad")
+            \/ (ev.cmd = "add" /\ ev.hasId /\ idx # {})
+            \/ (ev.cmd = "update" /\ idx = {})
+            \/ (ev.cmd = "update" /\ idx # {} /\ ev.typ # "bad" /\ locked
+                  /\ ~Covers(new, old, q))
+            \/ ev.cmd = "other"
+        expected ==
+            IF ~accepted THEN before
+            ELSE IF ev.cmd = "add" THEN Append(before, new)
+            ELSE IF ev.cmd = "update" /\ idx # {}
+                 THEN [before EXCEPT ![CHOOSE i \in idx : TRUE] = new]
+            ELSE IF ev.cmd = "delete"
+                 THEN SelectSeq(before, LAMBDA r : r.id # ev.id)
+            ELSE before
+        freshId == ev.hasId \/ ev.cmd # "add" \/ ~accepted
+                   \/ (\A i \in 1..Len(before) : before[i].id # newId)
+        checks == <<
+          <<"C13", "C13.refused_unchanged", (~accepted) => SameList(ev.rl, before)>>,
+          <<"C13", "C13.must_refuse", mustRefuse => ~accepted>>,
+          <<"C13", "C13.effect", (accepted /\ ~mustRefuse) => SameList(ev.rl, expected)>>,
+          <<"C13", "C13.unique_ids", UniqueIds(ev.rl) /\ freshId>>,
+          <<"C13", "C13.notification", NotesOK(ev.notes, before, ev.rl)>>,
+          <<"C12", "C12.delete_refused", (locked /\ ev.cmd = "delete") => ~accepted>>,
+          <<"C12", "C12.refused_unchanged", (~accepted) => SameList(ev.rl, before)>>,
+          <<"C12", "C12.monotone",
+             locked =>
+               \A i \in 1..Len(before) :
+                 \A p \in SamplePoints(before[i]) : InAny(ev.rl, p[1], p[2], q)>>
+        >>
+    IN  [cs EXCEPT !.n = n, !.regs = ev.rl, !.v = Judge(cs.v, checks, 1, n, "")]
+
+\* GET: the payload equals the list
+GetStep(cs, ev) ==
+    [cs EXCEPT !.n = cs.n + 1,
+               !.v = Judge(cs.v, << <<"C13", "C13.get_payload", SameList(ev.rl, cs.regs)>> >>,
+                           1, cs.n + 1, "")]
+
+(***************************************************************************)
 (* Region added directly to the filter state (interleaved with commands).  *)
 (***************************************************************************)
 AddRegionStep(cs, reg) == [cs EXCEPT !.n = cs.n + 1, !.regs = Append(cs.regs, reg)]
